@@ -612,6 +612,7 @@ def check_models(rec):
         s0 = expand(sig_val, n)[0]
         m0, P0, x0_val = 0.0, np.array([[s0 * s0]]), float(s0 * pos[key])
     classes.append("x0_" + x0s["k"])
+    classes.append("proc_" + proc)
     # ---- build
     if proc == "wiener":
         mdl = jft.WienerProcess(x0_arg, sig_arg, dt_arg, name=name, N_steps=nsteps)
@@ -700,21 +701,25 @@ def process_recipes(proc):
             jit = draw(st.integers(0, 7)) != 0
             # op-by-op execution compiles every primitive once per array shape: keep to two lengths in the quick tier
             n = _steps(draw, tier) if jit or tier != "quick" else draw(st.sampled_from([2, 5]))
-            r = {"proc": proc, "n": n, "dt": _dt(draw, n), "sigma": _param(draw, SIG, n),
-                 "seed": draw(SEED), "as0d": draw(st.booleans()), "generic_single": draw(st.booleans()),
+            # homogeneous chain (all parameters constant, uniform grid): closed-form kernel, single-matrix generic call
+            homog = draw(st.integers(0, 4)) == 0
+            pl = 0.0 if homog else 0.7
+            dt = draw(st.sampled_from([draw(DT), [draw(DT)] * n])) if homog else _dt(draw, n)
+            r = {"proc": proc, "n": n, "dt": dt, "sigma": _param(draw, SIG, n, pl),
+                 "seed": draw(SEED), "as0d": draw(st.booleans()), "generic_single": homog or draw(st.booleans()),
                  "jit": jit, "wrapper": draw(st.booleans())}
             if proc == "ou":
-                r["gamma"] = _param(draw, GAM, n)
+                r["gamma"] = _param(draw, GAM, n, pl)
             if proc == "iwp":
                 r["x0"] = [draw(X0), draw(X0)]
-                how = draw(st.sampled_from(["none", "omit", "zero", "val", "val", "val"]))
+                how = draw(st.sampled_from(["none", "omit", "zero", "val", "val", "val", "val", "val"]))
                 if how in ("none", "omit"):
                     r["asp"] = None
                     r["asp_omit"] = how == "omit"
                 elif how == "zero":
                     r["asp"] = 0.0
                 else:
-                    r["asp"] = _param(draw, ASP, n)
+                    r["asp"] = _param(draw, ASP, n, pl)
             else:
                 r["x0"] = draw(X0)
             return r
@@ -726,30 +731,31 @@ def generic_recipes(tier):
     @st.composite
     def rec(draw):
         n = draw(st.sampled_from([1, 2, 4, 7, 12] if tier == "quick" else list(range(1, 13))))
-        mode = draw(st.sampled_from(["matrix", "matrix", "matrix", "scalar", "scalar_args"]))
+        mode = draw(st.sampled_from(["matrix", "matrix", "matrix", "matrix", "scalar", "scalar_args"]))
         if mode == "scalar":
             E = S.dyadic(-2.0, 2.0, 8)
             return {"mode": mode, "n": n, "d": 1, "m": 1, "drift": _param(draw, E, n, 0.5),
                     "diffamp": _param(draw, E, n, 0.5), "x0": draw(X0), "seed": draw(SEED), "as0d": draw(st.booleans()),
                     "jit": draw(st.integers(0, 3)) != 0}
-        d = 1 if mode == "scalar_args" else draw(st.sampled_from([1, 2, 2, 3]))
+        d = 1 if mode == "scalar_args" else draw(st.sampled_from([1, 2, 2, 3, 3]))
         m = d if mode == "scalar_args" or draw(st.integers(0, 3)) else draw(st.sampled_from([1, 2, 3]))
-        ds, as_ = draw(st.booleans()), draw(st.booleans())
+        ds, as_ = draw(st.sampled_from([False, False, True])), draw(st.sampled_from([False, False, True]))
         return {"mode": mode, "n": n, "d": d, "m": m, "drift_single": ds, "diffamp_single": as_, "seed": draw(SEED),
                 "jit": draw(st.integers(0, 3)) != 0}
     return rec()
 
 
-def _hyper(draw, elem, n, allow_none=False):
+def _hyper(draw, elem, n, allow_none=False, pl=None):
     kinds = ["fix", "fix", "tuple", "model"] + (["none"] if allow_none else [])
     k = draw(st.sampled_from(kinds))
     if k == "none":
         return {"k": "none"}
     if k == "fix":
-        return {"k": "fix", "v": _param(draw, elem, n), "arr": draw(st.sampled_from(["np", "jnp"]))}
+        return {"k": "fix", "v": _param(draw, elem, n, 0.7 if pl is None else pl), "arr": draw(st.sampled_from(["np", "jnp"]))}
     if k == "tuple":
         return {"k": "tuple", "m": draw(S.dyadic_nz(0.5, 2.0, 4, signed=False)), "s": draw(S.dyadic_nz(0.25, 1.0, 4, signed=False))}
-    base = _param(draw, elem if elem is not ASP else S.dyadic_nz(1 / 8, 2.0, 8, signed=False), n, 0.5)
+    base = _param(draw, elem if elem is not ASP else S.dyadic_nz(1 / 8, 2.0, 8, signed=False), n,
+                  0.5 if pl is None else pl)
     return {"k": "model", "v": base, "w": draw(st.sampled_from([0.25, 0.5]))}
 
 
@@ -758,13 +764,15 @@ def model_recipes(tier):
     def rec(draw):
         proc = draw(st.sampled_from(["wiener", "iwp", "ou"]))
         n = draw(st.sampled_from([1, 3, 3, 6, 6] if tier == "quick" else list(range(1, 13))))
+        homog = draw(st.integers(0, 4)) == 0        # constant parameters: closed-form kernel, stationary OU
+        pl = 0.0 if homog else None
         r = {"proc": proc, "n": n, "dt": _dt(draw, n), "name": draw(st.sampled_from(["wp", "iwp", "oup", "gm", "xi"])),
              "seed": draw(SEED), "jit": draw(st.integers(0, 5)) == 0, "nsteps_too": draw(st.booleans()),
-             "sigma": _hyper(draw, SIG, n)}
+             "sigma": _hyper(draw, SIG, n, pl=pl)}
         if proc == "ou":
-            r["gamma"] = _hyper(draw, GAM, n)
+            r["gamma"] = _hyper(draw, GAM, n, pl=pl)
         if proc == "iwp":
-            r["asp"] = _hyper(draw, ASP, n, allow_none=True)
+            r["asp"] = _hyper(draw, ASP, n, allow_none=True, pl=pl)
         xk = draw(st.sampled_from(["fix", "tuple", "model"] + (["none", "none", "none"] if proc == "ou" else [])))
         P = S.dyadic_nz(0.25, 2.0, 4, signed=False)
         if xk == "none":
@@ -780,25 +788,25 @@ def model_recipes(tier):
 
 NT = "non-trivial = >= 2 steps and (non-uniform dt or a per-step parameter that actually varies)"
 SUBS = [
-    Sub(name="wiener", check=check_process, strategy=process_recipes("wiener"), quick=72, thorough=4000, shards=3,
+    Sub(name="wiener", check=check_process, strategy=process_recipes("wiener"), quick=72, thorough=2400, shards=3,
         jax=True,
         rule="wiener_process: mean == x0, L L^T == recursion (Q = sigma^2 dt) == kernel int_0^min sigma(t)^2 dt; "
              "generic / scalar generator fed (1, sigma sqrt(dt)) agrees; " + NT),
-    Sub(name="integrated_wiener", check=check_process, strategy=process_recipes("iwp"), quick=96, thorough=6000,
+    Sub(name="integrated_wiener", check=check_process, strategy=process_recipes("iwp"), quick=96, thorough=3200,
         shards=4, jax=True,
         rule="integrated_wiener_process with asperity None / 0 / scalar / per-step: mean == x0 + v0 t, full 2(N+1) "
              "covariance == recursion (A=[[1,dt],[0,1]], Q=sigma^2[[dt^3/3+a dt, dt^2/2],[dt^2/2, dt]]) == kernel "
              "(closed form / Van Loan); generic generator fed (A_k, chol Q_k) has the same law; " + NT),
-    Sub(name="ornstein_uhlenbeck", check=check_process, strategy=process_recipes("ou"), quick=72, thorough=4000,
+    Sub(name="ornstein_uhlenbeck", check=check_process, strategy=process_recipes("ou"), quick=72, thorough=2400,
         shards=3, jax=True,
         rule="ornstein_uhlenbeck_process: mean == x0 exp(-int gamma), covariance == recursion (A=e^{-gamma dt}, "
              "Q=sigma^2(1-e^{-2 gamma dt})) == kernel sigma^2(e^{-gamma|t-s|}-e^{-gamma(t+s)}) / Van Loan; "
              "scalar generator agrees path-wise; " + NT),
-    Sub(name="generic", check=check_generic, strategy=generic_recipes, quick=96, thorough=4000, shards=2, jax=True,
+    Sub(name="generic", check=check_generic, strategy=generic_recipes, quick=96, thorough=3200, shards=2, jax=True,
         rule="discrete_gauss_markov_process / scalar_gauss_markov_process with generated drift and diffamp (single "
              "matrix or sequence, scalars, rectangular diffamp) == NumPy evaluation of the docstring recursion; "
              "non-trivial = >= 2 steps, a per-step sequence, and (matrix mode) state dimension >= 2"),
-    Sub(name="models", check=check_models, strategy=model_recipes, quick=96, thorough=4000, shards=4, jax=True,
+    Sub(name="models", check=check_models, strategy=model_recipes, quick=96, thorough=1600, shards=4, jax=True,
         rule="WienerProcess / IntegratedWienerProcess / OrnsteinUhlenbeckProcess with fixed, tuple-prior, user-model "
              "and default (OU steady state) parameters, scalar dt + N_steps or array dt, eager and jit: domain keys "
              "and shapes, model(x) == bare function at the same latent input, covariance w.r.t. all standard-normal "
